@@ -855,6 +855,7 @@ class Variant(VariantBase):
         self._assert_matches_re("id", [r"^[a-zA-Z0-9]+$"])
 
     def _validate_uid(self):
+        self._assert_type("uid", list(six.string_types))
         if self.parent is None:
             uid = self.id
             self_uid = self.uid.replace("-", "")
